@@ -85,7 +85,7 @@ SPECS = [
                 TRY_ZERO: "let tr_ := app tr_ [(mp, 0, 0)]",
                 ENTRY: "let tr_ := app tr_ [(mp, subindex, word_ var)]",
                 ENTRY_CURTIS: "let tr_ := app tr_ [(mp, subindex, cword_ var)]",
-                TRY_COUNT: "let tr_ := app tr_ [(mp, 0, Z.of_nat (length map_))]",
+                TRY_COUNT: "let tr_ := app tr_ [(mp, 0, Z.of_nat (List.length map_))]",
                 "self.com_record[1].raw = cob_id": "let tr_ := app tr_ [(com, 1, cob_id)]",
                 "self.subscribe()": "let sub_ := true"}),
     dict(module=M, qualname="PdoMap.read", name="src_read_decode",
